@@ -8,6 +8,7 @@ import (
 	"math/rand"
 	"sort"
 	"strings"
+	"time"
 )
 
 // DataClass names a family of plaintexts; Make realises one member.
@@ -149,6 +150,33 @@ func (s *RecSink) Write(p []byte) (int, error) {
 // recovering panics. It returns the bytes, the final error (nil = clean
 // io.EOF) and whether a panic occurred.
 func readAllSafe(r io.Reader, bufSize int, limit int) (out []byte, err error, panicked any) {
+	// A Read that never returns cannot be interrupted; it is abandoned (its goroutine keeps
+	// spinning) and reported as an error value, so that the calling check reaches a verdict.
+	type res struct {
+		out []byte
+		err error
+		p   any
+	}
+	ch := make(chan res, 1)
+	go func() {
+		o, e, p := readAllInner(r, bufSize, limit)
+		ch <- res{o, e, p}
+	}()
+	select {
+	case x := <-ch:
+		return x.out, x.err, x.p
+	case <-time.After(stallLimit):
+		return nil, errStalled, nil
+	}
+}
+
+// stallLimit bounds one complete read-to-the-end of a stream (the largest contents are a few
+// MiB and take well under a second).
+const stallLimit = 150 * time.Second
+
+var errStalled = fmt.Errorf("reader stalled: reading to the end did not finish within %v", stallLimit)
+
+func readAllInner(r io.Reader, bufSize int, limit int) (out []byte, err error, panicked any) {
 	defer func() {
 		if p := recover(); p != nil {
 			panicked = p
